@@ -1678,6 +1678,13 @@ void pristine_stop(void) {
 // with nothing but B calls in between - and B touches less memory than A (or other positions), so whatever an A call left
 // behind is still there when the counter comes round. Every A must return the bits of the first A, every B the bits of the
 // first B, and the shared objects must not have changed at the end (a threshold crossed after N calls included).
+#if VP_ASAN || VP_TSAN
+size_t __sanitizer_get_current_allocated_bytes(void);  // common sanitizer allocator interface (libasan / libtsan)
+static size_t heap_in_use(void) { return __sanitizer_get_current_allocated_bytes(); }
+#else
+#include <malloc.h>
+static size_t heap_in_use(void) { return (size_t)mallinfo2().uordblks; }
+#endif
 int ops_history_check(const opdef_t* o, const env_t* big, const env_t* small, uint64_t seedA, uint64_t seedB, char* msg, size_t msglen, uint64_t* calls) {
   uint64_t bb = 0;
   const uint64_t hb0 = env_hash(big, &bb), hs0 = small != big ? env_hash(small, &bb) : 0;
@@ -1692,7 +1699,11 @@ int ops_history_check(const opdef_t* o, const env_t* big, const env_t* small, ui
   (*calls)++;
   int bad = 0;
   static const int GAP[2] = {256, 65536};
+  size_t heap0 = 0;
   for (int g = 0; g < 2 && !bad; g++) {
+    // heap in use after the first 257 calls (every lazily created cache exists by then) against the end of the history: the
+    // harness frees everything it allocates per call, so what remains was allocated - and kept - by the library
+    if (g == 1) heap0 = heap_in_use();
     const env_t* be = small;
     op_exec_repeat = GAP[g] - 2;  // 1 + (GAP-2) = GAP-1 calls of B between two A calls
     op_exec(o, be, seedB, 2, 3, 0, &b);
@@ -1720,6 +1731,13 @@ int ops_history_check(const opdef_t* o, const env_t* big, const env_t* small, ui
     }
   }
   op_exec_repeat = saved_rep;
+  if (!bad && heap0) {
+    const size_t heap1 = heap_in_use();
+    if (heap1 > heap0 + (512u << 10)) {
+      bad = 1;
+      snprintf(msg, msglen, "%s [N=%" PRIu64 "]: the heap in use grew by %zu bytes during 65537 calls with two argument sets (the harness frees all its own allocations): memory kept per call", o->name, big->N, heap1 - heap0);
+    }
+  }
   if (!bad) {
     if (env_hash(big, &bb) != hb0 || (small != big && env_hash(small, &bb) != hs0)) {
       bad = 1;
